@@ -88,7 +88,7 @@ func GenPlain(r *hx.Rand, n int) PGen {
 // read scripts by lengths (sitem)
 
 type SItem struct {
-	K string `json:"k"` // d | de | z | f
+	K string `json:"k"` // d | de | z | f | dx (data together with a non-EOF error, once)
 	N int    `json:"n,omitempty"`
 }
 
@@ -132,6 +132,8 @@ func (s SItems) Coq() string {
 			items[i] = "IZ"
 		case "f":
 			items[i] = "IF"
+		case "dx":
+			items[i] = fmt.Sprintf("IDX %d", it.N)
 		}
 	}
 	return hx.CoqList(items)
@@ -141,7 +143,7 @@ func (s SItems) Coq() string {
 func (s SItems) Fails() bool {
 	for _, it := range s {
 		switch it.K {
-		case "f":
+		case "f", "dx":
 			return true
 		case "de":
 			return false
@@ -161,7 +163,14 @@ func (s SItems) Shape() string {
 			e = "E"
 		case "f":
 			f = "F"
+		case "dx":
+			f = "X"
 		}
+	}
+	if nz := s.Zeros(); nz >= 100 {
+		z = "Z100+"
+	} else if s.MaxZeroRun() >= 20 {
+		z = "Zrun"
 	}
 	n := "1"
 	switch {
@@ -171,6 +180,200 @@ func (s SItems) Shape() string {
 		n = "some"
 	}
 	return n + z + e + f
+}
+
+// Zeros: number of zero-length reads in the script; MaxZeroRun: longest run of consecutive ones.
+func (s SItems) Zeros() int {
+	n := 0
+	for _, it := range s {
+		if it.K == "z" {
+			n++
+		}
+	}
+	return n
+}
+
+func (s SItems) MaxZeroRun() int {
+	best, cur := 0, 0
+	for _, it := range s {
+		if it.K == "z" {
+			cur++
+			if cur > best {
+				best = cur
+			}
+		} else {
+			cur = 0
+		}
+	}
+	return best
+}
+
+// XReader: the scripted io.Reader of this package - the twin of xread in coq/C01/ReaderX.v: like
+// verifharness/sreader plus the item "dx" (the Read that returns the last byte of the item also
+// returns the failure error, ONCE; later reads go on with the rest of the script).
+type XReader struct {
+	items [][2]any // kind, data
+	fail  error
+	eof   error
+	Reads int
+}
+
+func NewXReader(s SItems, data []byte, fail, eof error) *XReader {
+	if fail == nil {
+		fail = sreader.ErrFail
+	}
+	if eof == nil {
+		eof = io.EOF
+	}
+	r := &XReader{fail: fail, eof: eof}
+	rest := data
+	for _, it := range s {
+		n := it.N
+		if n > len(rest) {
+			n = len(rest)
+		}
+		switch it.K {
+		case "d", "de", "dx":
+			r.items = append(r.items, [2]any{it.K, append([]byte(nil), rest[:n]...)})
+			rest = rest[n:]
+		default:
+			r.items = append(r.items, [2]any{it.K, []byte(nil)})
+		}
+	}
+	return r
+}
+
+func (r *XReader) Read(p []byte) (int, error) {
+	r.Reads++
+	if len(p) == 0 {
+		return 0, nil
+	}
+	if len(r.items) == 0 {
+		return 0, r.eof
+	}
+	k, d := r.items[0][0].(string), r.items[0][1].([]byte)
+	switch k {
+	case "z":
+		r.items = r.items[1:]
+		return 0, nil
+	case "f":
+		return 0, r.fail
+	}
+	if len(d) <= len(p) {
+		n := copy(p, d)
+		switch k {
+		case "d":
+			r.items = r.items[1:]
+			return n, nil
+		case "de":
+			r.items = nil
+			return n, r.eof
+		default: // dx
+			r.items = r.items[1:]
+			return n, r.fail
+		}
+	}
+	n := copy(p, d[:len(p)])
+	r.items[0][1] = d[len(p):]
+	return n, nil
+}
+
+// GenZeroHeavy: a zero-length read before EVERY data read, in about `chunks` chunks (one-byte
+// chunks over the first `fine` bytes, so that a header is read byte by byte); EOF alone or with
+// the last data.
+func GenZeroHeavy(r *hx.Rand, total, chunks, fine int, eofWithData bool) SItems {
+	var s SItems
+	rest := total
+	for rest > 0 {
+		k := 1
+		if total-rest >= fine {
+			k = (total-fine)/chunks + 1
+			k = r.Range((k+1)/2, k+k/2)
+		}
+		if k > rest {
+			k = rest
+		}
+		s = append(s, SItem{K: "z"}, SItem{K: "d", N: k})
+		rest -= k
+	}
+	s = append(s, SItem{K: "z"})
+	if eofWithData {
+		if n := len(s); n >= 2 && s[n-2].K == "d" {
+			s[n-2].K = "de"
+			s = s[:n-1]
+		}
+	}
+	return s
+}
+
+// GenZeroRuns: runs of `run` CONSECUTIVE zero-length reads at the start, after the first chunk,
+// in the middle and before the end of input.
+func GenZeroRuns(r *hx.Rand, total, run int, eofWithData bool) SItems {
+	zs := func() SItems {
+		var z SItems
+		for i := 0; i < run; i++ {
+			z = append(z, SItem{K: "z"})
+		}
+		return z
+	}
+	s := zs()
+	cuts := []int{r.Range(0, total/3+1), r.Range(total/3, 2*total/3+1)}
+	pos := 0
+	for _, c := range append(cuts, total) {
+		if c > total {
+			c = total
+		}
+		if c > pos {
+			s = append(s, SItem{K: "d", N: c - pos})
+			pos = c
+		}
+		s = append(s, zs()...)
+	}
+	if eofWithData {
+		for i := len(s) - 1; i >= 0; i-- {
+			if s[i].K == "d" {
+				s[i].K = "de"
+				s = s[:i+1]
+				break
+			}
+		}
+	}
+	return s
+}
+
+// WithError turns the end of a script that delivers `upto` bytes into a source error.  mode:
+// "" = (0, err) on the next read, sticky; "data_sticky" = the error comes TOGETHER with the last
+// data and on every later read; "data_once_eof" = together with the last data, once, then end of
+// input; "data_once_continue" = together with the data, once, then the remaining `rest` bytes
+// follow normally and the input ends.
+func WithError(s SItems, mode string, rest int) SItems {
+	out := append(SItems(nil), s...)
+	last := -1
+	for i := len(out) - 1; i >= 0; i-- {
+		if out[i].K == "d" || out[i].K == "de" {
+			last = i
+			break
+		}
+	}
+	if mode == "" || last < 0 {
+		if mode != "" {
+			out = append(out, SItem{K: "dx", N: 0})
+		} else {
+			return append(out, SItem{K: "f"})
+		}
+	} else {
+		out[last].K = "dx"
+		out = out[:last+1]
+	}
+	switch mode {
+	case "data_sticky":
+		out = append(out, SItem{K: "f"})
+	case "data_once_continue":
+		if rest > 0 {
+			out = append(out, SItem{K: "d", N: rest})
+		}
+	}
+	return out
 }
 
 // GenItems cuts `total` bytes into at most maxItems chunks of size <= maxChunk.
@@ -689,7 +892,7 @@ func RunEncrypt(o Opts, data []byte, sc SItems, vault Vault, wfkLen int, cr *hx.
 		c := enc.Cipher(*o.Cipher)
 		eo.Cipher = &c
 	}
-	stream, err := enc.Encrypt(sreader.New(sc.Script(data)), eo)
+	stream, err := enc.Encrypt(NewXReader(sc, data, nil, nil), eo)
 	if err != nil {
 		res.CallErr = err
 		return res
@@ -750,24 +953,6 @@ var FailNames = []string{"sentinel", "unexpected_eof", "wrapped_unexpected_eof",
 // ErrWrappedEOF: an end of input reported as an error that wraps io.EOF (errors.Is(err, io.EOF)).
 var ErrWrappedEOF = fmt.Errorf("end of body: %w", io.EOF)
 
-// errReader substitutes error identities in what a scripted reader returns.
-type errReader struct {
-	r    io.Reader
-	fail error // replaces sreader.ErrFail
-	eof  error // replaces io.EOF
-}
-
-func (e *errReader) Read(p []byte) (int, error) {
-	n, err := e.r.Read(p)
-	switch {
-	case err == io.EOF && e.eof != nil:
-		err = e.eof
-	case err != nil && errors.Is(err, sreader.ErrFail) && e.fail != nil:
-		err = e.fail
-	}
-	return n, err
-}
-
 // SrcOpts: how the scripted source reports its failure ("" = the sentinel) and its end.
 type SrcOpts struct {
 	Fail    string
@@ -781,12 +966,12 @@ func (o SrcOpts) failErr() error {
 	return sreader.ErrFail
 }
 
-func (o SrcOpts) reader(sc sreader.Script) io.Reader {
-	er := &errReader{r: sreader.New(sc), fail: o.failErr()}
+func (o SrcOpts) reader(sc SItems, data []byte) io.Reader {
+	var eof error
 	if o.WrapEOF {
-		er.eof = ErrWrappedEOF
+		eof = ErrWrappedEOF
 	}
-	return er
+	return NewXReader(sc, data, o.failErr(), eof)
 }
 
 // status classifies the terminal error of the output stream; the source's own error identity is
@@ -800,7 +985,7 @@ func (o SrcOpts) status(err error) (string, bool) {
 
 // StartDecrypt calls Decrypt over the scripted source and returns the stream.
 func StartDecrypt(doc []byte, sc SItems, tbl UTable, optkn string, so SrcOpts) (io.Reader, error) {
-	return enc.Decrypt(so.reader(sc.Script(doc)), enc.DecryptOptions{UnwrapKeyFn: tbl.Fn(), KeyName: optkn})
+	return enc.Decrypt(so.reader(sc, doc), enc.DecryptOptions{UnwrapKeyFn: tbl.Fn(), KeyName: optkn})
 }
 
 func RunDecrypt(doc []byte, sc SItems, tbl UTable, optkn string, cr *hx.Rand) DecResult {
